@@ -76,6 +76,7 @@ static void on_alarm(int)
 	// same case still running two ticks in a row => treat as a hang
 	if (g_cur && g_alarm_seen_case == g_case_no) {
 		dump_current("hang (no progress for >= one watchdog period)");
+		wr(1, "REPLAY-FAIL: hang (the case made no progress for a whole watchdog period)\n");
 		_exit(4);
 	}
 	g_alarm_seen_case = g_case_no;
